@@ -97,6 +97,7 @@ func bufprop(r *simkit.Run, prop string) {
 	if cfg.retry != nil {
 		opts = append(opts, buffer.Retry(cfg.retry.render(false)))
 	}
+	nestBuffers = rapid.IntRange(0, 3).Draw(rt, "behind-another-buffer") == 0
 	// the order in which options are passed means nothing
 	if perm := rapid.Permutation(seq(len(opts))).Draw(rt, "option-order"); true {
 		shuffled := make([]buffer.Option, len(opts))
@@ -531,8 +532,20 @@ func b(rt *rapid.T, opts []buffer.Option, ex *exchange) *buffer.Buffer {
 	if err != nil {
 		rt.Fatalf("buffer.New: %v", err)
 	}
+	if nestBuffers {
+		// the buffer under test sits behind another, plainly configured one (two live buffered responses per
+		// request): the outer one relays what the inner one delivers
+		outer, err := buffer.New(bf)
+		if err != nil {
+			rt.Fatalf("buffer.New (outer): %v", err)
+		}
+		return outer
+	}
 	return bf
 }
+
+// nestBuffers is drawn per run
+var nestBuffers bool
 
 func scriptCodes(ex *exchange) []int {
 	var out []int
